@@ -84,8 +84,9 @@ template <class V> struct LeafSender {
     void finish(int chan) noexcept {
       auto& L = g_w->leaves[(size_t)id];
       if (L.completed) return;
+      L.t_completed = dk::tick();   // the completion begins here: from now on the leaf no longer listens for stop requests
       if (cb_live) { cb_live = false; cb.destruct(); }
-      L.completed = true; L.chan = chan; L.t_completed = dk::tick();
+      L.completed = true; L.chan = chan;
       vk::ctx().tr("#%ld leaf %d completes with %s", L.t_completed, id, dk::chan_name(chan));
       int i = id;
       LeafRec* rec = &L;   // (*this may be destroyed by the completion)
@@ -297,7 +298,10 @@ void run_script(const Script& sc, bool check, bool& nt8, bool& nt9) {
     if (t_close_begin >= 0 && it.t_call_end > t_close_begin && it.t_call_begin < t_close) close_races_admission = true;
     if (L.started && !L.completed) cx.fail(P8, "work_never_completed", "leaf %zu was started but never completed", i);
     if (L.connected && !L.destroyed) cx.fail("C02", "child_op_leak", "the operation state of leaf %zu was never destroyed", i);
-    if (t_stop_req >= 0 && L.started && (!L.completed || L.t_completed > t_stop_req) && L.t_started < t_stop_req && !L.stop_seen)
+    // (an operation that is also being stopped through its future -- cancel or drop -- may have that other request "in delivery"
+    // on another thread, in which case the scope's request legitimately returns at once; the rule is asserted for the others)
+    bool other_stop_path = it.kind == 2 && it.future_use != 0;
+    if (!other_stop_path && t_stop_req >= 0 && L.started && (!L.completed || L.t_completed > t_stop_req) && L.t_started < t_stop_req && !L.stop_seen)
       cx.fail(P8, "stop_not_delivered", "cleanup()/request_stop() had taken effect (at %ld) but running leaf %zu never observed a stop request", t_stop_req, i);
     if (it.kind == 0) {
       if (it.signals != 1) cx.fail("C01", "completion_count", "nest/attach item #%zu completed %d times", i, it.signals);
@@ -316,12 +320,18 @@ void run_script(const Script& sc, bool check, bool& nt8, bool& nt9) {
           if (it.chan == dk::VALUE && (L.chan != dk::VALUE || it.payload != 1000 + (long)i)) cx.fail(P9, "future_value", "future #%zu completed with value %ld, its operation with %s (payload %ld)", i, it.payload, dk::chan_name(L.chan), 1000 + (long)i);
           if (it.chan == dk::ERROR && L.chan != dk::ERROR) cx.fail(P9, "future_error", "future #%zu completed with an error, its operation with %s", i, dk::chan_name(L.chan));
           if (it.chan == dk::DONE && L.chan != dk::DONE && !cancelled) cx.fail(P9, "future_done_without_cause", "future #%zu completed with done although its operation completed with %s and the future was not cancelled", i, dk::chan_name(L.chan));
-          if (result_ready_at_await && it.chan != L.chan) cx.fail(P9, "ready_result_not_delivered", "future #%zu: the result (%s) was already available when the future was awaited, but it completed with %s", i, dk::chan_name(L.chan), dk::chan_name(it.chan));
-          if (it.t_fut_stop >= 0 && L.completed && L.t_completed > it.t_done && L.t_started < it.t_fut_stop && !L.stop_seen && it.chan == dk::DONE) cx.fail(P9, "cancel_not_forwarded", "future #%zu was cancelled and completed with done but never requested stop on its operation", i);
+          // (v1 futures are nested with attach(), whose stop callback may win against a completion that happens at the same
+          // time; the rule is asserted only when no scope-level stop request overlaps the await)
+          bool scope_stop_overlaps = false;
+          for (auto& j : W.joins) if (j.kind >= 1 && j.t_begin >= 0 && j.t_begin < it.t_done && (j.t_start_end < 0 || j.t_start_end > it.t_fut_start)) scope_stop_overlaps = true;
+          if (result_ready_at_await && !scope_stop_overlaps && it.chan != L.chan) cx.fail(P9, "ready_result_not_delivered", "future #%zu: the result (%s) was already available when the future was awaited, but it completed with %s", i, dk::chan_name(L.chan), dk::chan_name(it.chan));
+          bool scope_stop_races = t_stop_begin >= 0 && t_stop_begin < L.t_completed;
+          if (!scope_stop_races && it.t_fut_stop >= 0 && L.completed && L.t_completed > it.t_done && L.t_started < it.t_fut_stop && !L.stop_seen && it.chan == dk::DONE) cx.fail(P9, "cancel_not_forwarded", "future #%zu was cancelled and completed with done but never requested stop on its operation", i);
           if (cancelled && it.t_fut_start >= 0 && !result_ready_at_await) future_race = true;
         }
       } else {
-        if (L.started && !L.stop_seen && it.t_drop_end >= 0 && L.t_started < it.t_consumed && (!L.completed || L.t_completed > it.t_drop_end)) cx.fail(P9, "drop_does_not_cancel", "future #%zu was dropped (at %ld) while its operation was running but the operation never observed a stop request", i, it.t_consumed);
+        bool scope_stop_races = t_stop_begin >= 0 && (!L.completed || t_stop_begin < L.t_completed);   // the scope's own stop request may be the one "in delivery"
+        if (!scope_stop_races && L.started && !L.stop_seen && it.t_drop_end >= 0 && L.t_started < it.t_consumed && (!L.completed || L.t_completed > it.t_drop_end)) cx.fail(P9, "drop_does_not_cancel", "future #%zu was dropped (at %ld) while its operation was running but the operation never observed a stop request", i, it.t_consumed);
         if (L.started && it.future_use == 3) future_race = true;
       }
     }
